@@ -170,3 +170,15 @@ add("C36", "classic ignored count drops zeros", "nifty/cl/extra.py", "xnigndof[i
 add("C36", "classic slots swapped in the result", "nifty/cl/extra.py", "                'data_residuals': xredchisq[0],\n                'latent_variables': xredchisq[1]",
     "                'data_residuals': xredchisq[1],\n                'latent_variables': xredchisq[0]", "R36.2")
 VARIANTS = V
+
+GMP = "nifty/re/gauss_markov.py"
+add("C29", "wiener amplitude linear in dt", GMP, "    amp = jnp.sqrt(dt) * sigma", "    amp = dt * sigma", "R29.1")
+add("C29", "OU amplitude uses drift not drift squared", GMP, "amp = sigma * jnp.sqrt(1.0 - drift**2)", "amp = sigma * jnp.sqrt(1.0 - drift)", "R29.2")
+add("C29", "OU drift without minus", GMP, "drift = jnp.exp(-gamma * dt)", "drift = jnp.exp(-gamma * dt / 2)", "R29.2")
+add("C29", "OU hands amplitude and drift swapped", GMP, "return scalar_gauss_markov_process(xi, x0, drift, amp)", "return scalar_gauss_markov_process(xi, x0, amp, drift)", "R29.2")
+add("C29", "IWP own-variance term", GMP, "jnp.sqrt(dt**2 / 12.0 + asperity)", "jnp.sqrt(dt**2 / 3.0 + asperity)", "R29.3")
+add("C29", "IWP cross term", GMP, "res = res.at[:, 0].add(0.5 * dt * res[:, 1])", "res = res.at[:, 0].add(dt * res[:, 1])", "R29.3")
+add("C29", "IWP drift uses current slope", GMP, "res = res.at[1:, 0].add(dt * res[:-1, 1])", "res = res.at[1:, 0].add(dt * res[1:, 1])", "R29.3")
+add("C29", "generic loop multiplies the wrong row", GMP, "return a.at[i + 1].add(jnp.matmul(d, a[i]))", "return a.at[i + 1].add(jnp.matmul(d, a[i + 1]))", "R29.4")
+add("C29", "generic noise uses drift", GMP, "res = vmap(jnp.matmul, in_ax, 0)(diffamp, xi)", "res = vmap(jnp.matmul, in_ax, 0)(drift, xi)", "R29.4")
+VARIANTS = V
